@@ -6,7 +6,7 @@ Definition binv (s : bst) : Prop :=
   b_start s <= b_clock s /\
   (forall t, b_done s = Some t -> t <= b_clock s) /\
   match b_pc s with
-  | BPolling => True
+  | BPolling | BStuck => True
   | BChecking => b_done s <> None -> b_tok s = true
   | BWaiting lim => lim = b_start s + b_dur s /\ (b_done s <> None -> b_tok s = true)
   | BDone BTimeout unseen at_ =>
@@ -39,21 +39,26 @@ Proof.
   intros s o I. pose proof I as (Hs & Hd & Hp). destruct o; cbn [bstep].
   - (* tick *) unfold binv. cbn [b_start b_clock b_done b_pc b_tok b_dur b_val].
     split; [lia|]. split; [intros t Ht; specialize (Hd t Ht); lia|].
-    destruct (b_pc s) as [| |lim|[v|] u a]; auto.
+    destruct (b_pc s) as [| |lim| |[v|] u a]; auto.
     destruct Hp as [A B]. split; [lia|exact B].
   - (* complete *) destruct (b_done s) as [t0|] eqn:D.
     + exact I.
     + unfold bwake. cbn [b_tok]. unfold binv.
       destruct (b_tok s) eqn:T; cbn [b_start b_clock b_done b_pc b_tok b_dur b_val];
         (split; [lia|]); (split; [intros t Ht; inversion Ht; lia|]);
-        (destruct (b_pc s) as [| |lim|[v|] u a]; auto;
+        (destruct (b_pc s) as [| |lim| |[v|] u a]; auto;
          [ destruct Hp as [A B]; split; auto
          | destruct Hp as [A [t [B C]]]; discriminate
          | destruct Hp as [A B]; split; [lia|]; intros U t Ht; inversion Ht; lia ]).
   - (* spurious *) unfold bwake, binv.
     destruct (b_tok s) eqn:T; cbn [b_start b_clock b_done b_pc b_tok b_dur b_val];
       (split; [lia|]); (split; [exact Hd|]);
-      (destruct (b_pc s) as [| |lim|[v|] u a]; auto; destruct Hp as [A B]; split; auto).
+      (destruct (b_pc s) as [| |lim| |[v|] u a]; auto; destruct Hp as [A B]; split; auto).
+  - (* self wake *) destruct (b_pc s) eqn:P; try exact I.
+    destruct (b_tok s) eqn:T.
+    + unfold set_bpc, binv. cbn [b_start b_clock b_done b_pc b_tok b_dur b_val]. repeat split; auto.
+    + unfold bwake. rewrite T. unfold binv. cbn [b_start b_clock b_done b_pc b_tok b_dur b_val].
+      rewrite P. repeat split; auto.
   - (* poll *) destruct (b_pc s) eqn:P; try exact I.
     destruct (b_done s) as [t0|] eqn:D; unfold set_bpc, binv;
       cbn [b_start b_clock b_done b_pc b_tok b_dur b_val]; try rewrite D;
@@ -107,6 +112,24 @@ Theorem late_check_window_exists :
     let s := brun ops (binit 0 10 7) in
     b_pc s = BDone BTimeout true at_ /\ b_done s = Some t /\ t < 0 + 10.
 Proof. exists [BPoll; BComplete; BTick 11; BCheck], 0, 11. vm_compute. auto. Qed.
+
+(* A liveness defect the model exhibits (not part of the C42 statement, which is about
+   what is returned): a wake from inside poll while a token is buffered blocks the
+   polling thread in the waker's send; from then on no step changes anything - the
+   duration is not honoured, block_timeout never returns. *)
+Theorem block_timeout_can_deadlock :
+  exists ops, b_pc (brun ops (binit 0 10 7)) = BStuck /\
+    forall more, b_pc (brun more (brun ops (binit 0 10 7))) = BStuck.
+Proof.
+  exists [BSpurious; BSelfWake]. split; [reflexivity|].
+  set (s0 := brun [BSpurious; BSelfWake] (binit 0 10 7)).
+  assert (P0 : b_pc s0 = BStuck) by reflexivity. clearbody s0.
+  intros more. revert s0 P0. induction more as [|o more IH]; intros s0 P0; [exact P0|].
+  change (brun (o :: more) s0) with (brun more (bstep s0 o)). apply IH.
+  destruct o; cbn [bstep]; unfold bwake, set_bpc; rewrite ?P0; cbn; auto.
+  - destruct (b_done s0); cbn; auto. destruct (b_tok s0); cbn; auto.
+  - destruct (b_tok s0); cbn; auto.
+Qed.
 
 (* Ok(v) is only ever the future's own output, returned after its completion *)
 Theorem block_timeout_ok_is_output : forall ops now dur val v u at_,
